@@ -65,7 +65,7 @@ def grow : Nat → Work → Work
   | n + 1, w => grow n (release { w with st := { w.st with V := w.st.V + 1 } })
 
 /-- what task `i` does once `acquire()` has returned: `_retarget_semaphore`, then the body -/
-def admit (i : Nat) (w : Work) : Work :=
+def admitTask (i : Nat) (w : Work) : Work :=
   if w.st.T ≤ 0 then
     { w with st := { w.st with leaked := w.st.leaked + 1 }, evs := w.evs ++ [Ev.refused i] }
   else
@@ -76,7 +76,7 @@ def admit (i : Nat) (w : Work) : Work :=
 /-- a woken waiter resumes inside `acquire()`: `if self._value > 0: self._wake_up_next()`, returns,
 and `__aenter__` goes on with `_retarget_semaphore` -/
 def resume (i : Nat) (w : Work) : Work :=
-  admit i (if w.st.S > 0 then wakeNext w else w)
+  admitTask i (if w.st.S > 0 then wakeNext w else w)
 
 /-- run the woken tasks until none is left; `fuel` ≥ `woken.length + waiters.length` suffices
 (`drain_done`) because every iteration retires one of them -/
@@ -97,7 +97,7 @@ def step (s : Lim) : Op → Lim × List Ev
       if s.S = 0 ∨ s.waiters ≠ [] then
         ({ s with waiters := s.waiters ++ [i] }, [])
       else
-        finish (admit i ⟨{ s with S := s.S - 1 }, [], []⟩)
+        finish (admitTask i ⟨{ s with S := s.S - 1 }, [], []⟩)
   | .exit i =>
       if i ∈ s.holders then
         let s1 := { s with holders := s.holders.erase i }
